@@ -34,6 +34,9 @@ warnings.filterwarnings("ignore")
 # tiny molecules: thread pools of BLAS / PySCF only cost (spin-waiting) on a shared machine
 for _v in ("OMP_NUM_THREADS", "OPENBLAS_NUM_THREADS", "MKL_NUM_THREADS"):
     os.environ.setdefault(_v, "1")
+# PySCF writes an SCF checkpoint (HDF5 temp file) per mean field; with hundreds of live molecules on a shared machine the
+# HDF5 advisory lock occasionally fails (BlockingIOError: unable to lock file) - the files are private, locking is not needed
+os.environ.setdefault("HDF5_USE_FILE_LOCKING", "FALSE")
 import numpy as np  # noqa: E402
 
 M = 4
